@@ -194,7 +194,22 @@ template <class T> static void runLines (int far)
         // is unrelated to the lattice answer (counted).
         bool same = (l1.dir == l2.dir) || (l1.dir == -l2.dir);
         if (same) check<T> ("Line3.distanceToLine", "parallel", qabs ((Q) dl - trueDist), scale, 64, in);
-        else ++counts[std::string ("parallel_in_lattice_but_directions_differ_by_rounding:") + tname<T> ()];
+        else
+        {
+            // parallel in the lattice, but the two normalised directions differ in the last place: the code takes the skew branch and
+            // divides an eps-sized triple product by the eps-sized |d1 x d2|.  JUDGED against the lattice answer (the distance of
+            // two parallel lines) with a generous bound (1e-3 relative): the outcome is recorded, not skipped.
+            ++counts[std::string ("parallel_in_lattice_but_directions_differ_by_rounding:") + tname<T> ()];
+            ++evals;
+            bool okd = qabs ((Q) dl - trueDist) <= (Q) 1e-3 * (1 + trueDist);
+            ++counts[std::string ("parallel_differ_by_rounding_distance:") + tname<T> () + (okd ? ":within-1e-3" : ":wrong")];
+            if (!okd)
+            {
+                char b[200];
+                snprintf (b, 200, "distanceTo(line) = %.9g, distance of the two parallel lattice lines = %.9g", (double) dl, (double) trueDist);
+                flag ("Line3.distanceToLine", "parallel-directions-differ-by-rounding", tname<T> (), b, in);
+            }
+        }
         return;
     }
     // feet of the common perpendicular of the exact lines
@@ -327,6 +342,207 @@ template <class T> static void runPlaneXform ()
         T got = px.distanceTo (it<T> (xf (q)));
         bool same = (got > 0) == ((side > 0) == (det > 0));
         if (!same) flag ("Plane3.mulM44", "sides", tname<T> (), "side of a lattice point not kept (det sign accounted)", in);
+    }
+}
+
+//------------------------------------------------------------------------------------------------ overflow guards (audit W6)
+// The guards `|n| >= max*|d|` of closestPoints / closestPointTo(line) and `|d| >= max*|nd|` of the triangle test with a NON-ZERO
+// denominator are out of reach of the lattice classes (they need |w| ~ theta*max).  Here: unit directions at a small angle theta
+// (2^-20..2^-10 at double, 2^-9..2^-5 at float: d = sin^2 theta is well above eps, so its float evaluation is accurate to < 2 %),
+// positions = lattice points times a power of two chosen so that the EXACT ratio r = |n|/(max*|d|), evaluated in __float128 on the
+// STORED values, is about 4 (guard must fire) or about 1/4 (must not fire).  Judged: the decision equals the exact predicate.
+template <class T> static void runGuards ()
+{
+    const Q MAXT = (Q) std::numeric_limits<T>::max ();
+    IV a0 = iv (4), a1 = iv (4), b0 = iv (4), u = iv (3);
+    if (izero (isub (a1, a0))) return;
+    IV uu = icross (isub (a1, a0), u);                 // a lattice vector perpendicular to the direction
+    if (izero (uu)) return;
+    int    te = sizeof (T) == 4 ? li (5, 9) : li (10, 20);
+    Q      theta = 1 / (Q) (1l << te);
+    Line3<T> l1 (it<T> (a0), it<T> (a1));
+    QV     d1q = toQ (l1.dir), uq = unit (iq (uu));
+    Vec3<T> d2T = toT<T> (unit (d1q + theta * uq));
+    d2T.normalize ();
+    bool   wantFire = rng () % 2;
+    // exact quantities on the stored directions, positions a0*s, b0*s
+    QV d1 = toQ (l1.dir), d2 = toQ (d2T), w0 = iq (isub (a0, b0));
+    if (izero (isub (a0, b0))) return;
+    Q d1d2 = dot (d1, d2), d = 1 - d1d2 * d1d2;
+    Q n1 = d1d2 * dot (d2, w0) - dot (d1, w0), n2 = dot (d2, w0) - d1d2 * dot (d1, w0);
+    Q num = dot (d1, w0) - d1d2 * dot (d2, w0), den = d1d2 * d1d2 - 1;
+    Q big = qabs (n1) > qabs (n2) ? qabs (n1) : qabs (n2);
+    if (big == 0 || d == 0) { ++counts["guard_degenerate_skipped"]; return; }
+    Q r0 = big / (MAXT * qabs (d));
+    long double want = (long double) ((wantFire ? (Q) 4 : (Q) 0.25) / r0);
+    if (!(want > 1e-300L && want < 1e320L)) { ++counts["guard_scale_out_of_range"]; return; }
+    int e = (int) std::floor (log2l (want) + 0.5L);
+    Q s = (Q) std::ldexp (1.0, e);
+    if (!(std::ldexp (8.0, e) < (double) std::numeric_limits<T>::max ())) { ++counts["guard_scale_out_of_range"]; return; }
+    Vec3<T> p1 = it<T> (a0) * (T) std::ldexp (1.0, e), p2 = it<T> (b0) * (T) std::ldexp (1.0, e);
+    Line3<T> L1, L2;
+    L1.pos = p1; L1.dir = l1.dir; L2.pos = p2; L2.dir = d2T;
+    Q r1 = qabs (n1) * s / (MAXT * qabs (d)), r2 = qabs (n2) * s / (MAXT * qabs (d)), r3 = qabs (num) * s / (MAXT * qabs (den));
+    std::string in = fmt ({(double) p1.x, (double) p1.y, (double) p1.z, (double) L1.dir.x, (double) L1.dir.y, (double) L1.dir.z,
+                           (double) p2.x, (double) p2.y, (double) p2.z, (double) L2.dir.x, (double) L2.dir.y, (double) L2.dir.z});
+    // closestPoints: false iff one of the two ratios is >= 1; judged when both are outside [1/2, 2]
+    if ((r1 < 0.5 || r1 > 2) && (r2 < 0.5 || r2 > 2))
+    {
+        bool fire = r1 > 2 || r2 > 2;
+        Vec3<T> c1 (T (0)), c2 (T (0));
+        bool ok = closestPoints (L1, L2, c1, c2);
+        ++evals;
+        ++counts[std::string ("guard_closestPoints:") + tname<T> () + (fire ? ":fired" : ":not-fired")];
+        if (ok == fire) flag ("LineAlgo.closestPoints", fire ? "overflow-guard-must-fire" : "overflow-guard-must-not-fire", tname<T> (),
+                              "decision differs from the exact guard predicate |n| >= max*|d| on the stored values", in);
+        else if (ok)
+        {
+            // not fired: the feet are finite and lie on their lines to c*eps*|foot|
+            bool fin = std::isfinite ((double) c1.x) && std::isfinite ((double) c1.y) && std::isfinite ((double) c1.z) && std::isfinite ((double) c2.x) && std::isfinite ((double) c2.y) && std::isfinite ((double) c2.z);
+            if (!fin) flag ("LineAlgo.closestPoints", "overflow-guard-passed-nonfinite", tname<T> (), "guard did not fire but a returned point is not finite", in);
+        }
+    }
+    else ++counts["guard_near_boundary_skipped"];
+    if (r3 < 0.5 || r3 > 2)
+    {
+        bool fire = r3 > 2;
+        Vec3<T> cl = L1.closestPointTo (L2);
+        ++evals;
+        ++counts[std::string ("guard_closestPointToLine:") + tname<T> () + (fire ? ":fired" : ":not-fired")];
+        bool isPos = cl == L1.pos;
+        bool fin = std::isfinite ((double) cl.x) && std::isfinite ((double) cl.y) && std::isfinite ((double) cl.z);
+        if (fire && !isPos) flag ("Line3.closestPointToLine", "overflow-guard-must-fire", tname<T> (), "guard |num| >= |den|*max holds exactly on the stored values but the result is not pos", in);
+        if (!fire && (isPos || !fin)) flag ("Line3.closestPointToLine", "overflow-guard-must-not-fire", tname<T> (), "guard does not hold exactly but the result is pos / not finite", in);
+    }
+    // triangle: a line at angle theta to the triangle's plane, far away: |d| >= max*|nd| must give false
+    IV v0 = iv (4), v1 = iv (4), v2 = iv (4);
+    IV NI = icross (isub (v2, v1), isub (v1, v0));
+    if (izero (NI)) return;
+    QV nh = unit (iq (NI)), eq = unit (iq (isub (v1, v0)));
+    Vec3<T> dirT = toT<T> (unit (eq + theta * nh));
+    dirT.normalize ();
+    // the code's own (rounded) unit normal is not available: use the exact one; margin 4 covers its eps-sized error (theta >> eps)
+    Q nd = dot (nh, toQ (dirT));
+    IV off = iv (4);
+    Q dd0 = dot (nh, iq (isub (v0, off)));
+    if (dd0 == 0 || nd == 0) return;
+    Q rt0 = qabs (dd0) / (MAXT * qabs (nd));
+    long double want2 = (long double) ((Q) 4 / rt0);
+    if (!(want2 > 1e-300L && want2 < 1e320L)) { ++counts["guard_scale_out_of_range"]; return; }
+    int e2 = (int) std::floor (log2l (want2) + 0.5L);
+    if (!(std::ldexp (8.0, e2) < (double) std::numeric_limits<T>::max ())) { ++counts["guard_scale_out_of_range"]; return; }
+    Line3<T> L;
+    L.pos = it<T> (off) * (T) std::ldexp (1.0, e2); L.dir = dirT;
+    Q ddq = dot (nh, iq (v0) - toQ (L.pos));
+    Q rt = qabs (ddq) / (MAXT * qabs (nd));
+    if (rt > 2)
+    {
+        Vec3<T> pt (T (0)), bary (T (0)); bool front = false;
+        bool ok = intersect (L, it<T> (v0), it<T> (v1), it<T> (v2), pt, bary, front);
+        ++evals;
+        ++counts[std::string ("guard_triangle:") + tname<T> () + ":fired"];
+        if (ok) flag ("LineAlgo.intersect", "overflow-guard-must-fire", tname<T> (), "|d| >= max*|nd| holds exactly but intersect returned true",
+                      fmt ({(double) L.pos.x, (double) L.pos.y, (double) L.pos.z, (double) L.dir.x, (double) L.dir.y, (double) L.dir.z}) + fv (it<T> (v0)) + fv (it<T> (v1)) + fv (it<T> (v2)));
+    }
+}
+
+//------------------------------------------------------------------------------------------------ plane * projective matrix (audit W2)
+static long det4l (const long a[4][4])
+{
+    long r = 0;
+    for (int c = 0; c < 4; ++c)
+    {
+        long m[3][3];
+        for (int i = 1; i < 4; ++i) { int k = 0; for (int j = 0; j < 4; ++j) if (j != c) m[i - 1][k++] = a[i][j]; }
+        long d3 = m[0][0] * (m[1][1] * m[2][2] - m[1][2] * m[2][1]) - m[0][1] * (m[1][0] * m[2][2] - m[1][2] * m[2][0]) + m[0][2] * (m[1][0] * m[2][1] - m[1][1] * m[2][0]);
+        r += ((c % 2) ? -1 : 1) * a[0][c] * d3;
+    }
+    return r;
+}
+// Matrices with last column (a,b,c,16)/16, a,b,c in {-2..2}: a genuinely projective map.  Oracle: the exact images X_i / w_i of the
+// three lattice points and of a fourth in-plane lattice point (rationals, evaluated in __float128 from the integers); all four
+// must have signed distance ~ 0 to plane*M, the normal must be +-the exact one, and the SIDE of an off-plane point follows the
+// sign relation of theorem Plane3_mulM44_projective: sign(dist(q*M)) = sign(det4 * side(q) * w(q) * W), W the product of the three
+// construction w's.  Cases where an exact w vanishes or a construction w is small are skipped (counted).
+template <class T> static void runPlaneXformProj ()
+{
+    IV p1 = iv (4), p2 = iv (4), p3 = iv (4);
+    IV nI = icross (isub (p2, p1), isub (p3, p1));
+    if (izero (nI)) return;
+    long m[4][4];
+    for (int i = 0; i < 3; ++i) { for (int j = 0; j < 3; ++j) m[i][j] = li (-2, 2); m[3][i] = li (-4, 4); m[i][3] = li (-2, 2); }
+    m[3][3] = 16;
+    if (m[0][3] == 0 && m[1][3] == 0 && m[2][3] == 0) m[li (0, 2)][3] = 1;
+    long det = det4l (m);          // = 16 * det of the real matrix (last column / 16)
+    if (det == 0) { ++counts["proj_singular_skipped"]; return; }
+    Matrix44<T> M;
+    for (int i = 0; i < 4; ++i) for (int j = 0; j < 4; ++j) M[i][j] = j == 3 ? (T) (m[i][j] / 16.0) : (T) m[i][j];
+    auto wI = [&] (IV a) { return a.x * m[0][3] + a.y * m[1][3] + a.z * m[2][3] + 16; };                          // 16 * w
+    auto xq = [&] (QV a) { Q w = (a.x * (Q) m[0][3] + a.y * (Q) m[1][3] + a.z * (Q) m[2][3]) / 16 + 1;
+                           return qv ((a.x * (Q) m[0][0] + a.y * (Q) m[1][0] + a.z * (Q) m[2][0] + (Q) m[3][0]) / w,
+                                      (a.x * (Q) m[0][1] + a.y * (Q) m[1][1] + a.z * (Q) m[2][1] + (Q) m[3][1]) / w,
+                                      (a.x * (Q) m[0][2] + a.y * (Q) m[1][2] + a.z * (Q) m[2][2] + (Q) m[3][2]) / w); };
+    auto wq = [&] (QV a) { return (a.x * (Q) m[0][3] + a.y * (Q) m[1][3] + a.z * (Q) m[2][3]) / 16 + 1; };
+    IV p4 = iadd (p2, isub (p3, p1));
+    IV q = iv (6);
+    if (wI (p1) == 0 || wI (p2) == 0 || wI (p3) == 0 || wI (p4) == 0 || wI (q) == 0) { ++counts["proj_w_zero_skipped"]; return; }
+    // the code's construction points from the exact unit normal: point = d n, dir1 = e_i x n of largest length, point + dir1 x n, point + dir1
+    QV n = unit (iq (nI));
+    Q  dpl = dot (n, iq (p1));
+    QV cand[3] = {cross (qv (1, 0, 0), n), cross (qv (0, 1, 0), n), cross (qv (0, 0, 1), n)};
+    int best = 0; Q l0 = dot (cand[0], cand[0]), l1 = dot (cand[1], cand[1]), l2 = dot (cand[2], cand[2]);
+    if (l0 < l1) best = (l1 < l2) ? 2 : 1; else best = (l0 < l2) ? 2 : 0;
+    Q sorted[3] = {l0, l1, l2};
+    Q top = sorted[best], second = 0;
+    for (int i = 0; i < 3; ++i) if (i != best && sorted[i] > second) second = sorted[i];
+    bool tie = top - second < (Q) 1e-6;
+    QV P0 = dpl * n, P2 = P0 + cand[best], P1 = P0 + cross (cand[best], n);
+    Q  w0 = wq (P0), w1 = wq (P1), w2 = wq (P2);
+    Q  minw = qabs (w0); if (qabs (w1) < minw) minw = qabs (w1); if (qabs (w2) < minw) minw = qabs (w2);
+    for (IV a : {p1, p2, p3, p4, q}) { Q w = qabs ((Q) wI (a)) / 16; if (w < minw) minw = w; }
+    if (minw < (Q) 0.25 && !tie) { ++counts["proj_small_w_skipped"]; return; }
+    if (tie)
+    {
+        // near-tie of the axis choice: the construction points are not predictable; require all candidates to be safe
+        for (int b = 0; b < 3; ++b) { Q a = qabs (wq (P0 + cand[b])), c = qabs (wq (P0 + cross (cand[b], n))); if (a < minw) minw = a; if (c < minw) minw = c; }
+        if (minw < (Q) 0.25) { ++counts["proj_small_w_skipped"]; return; }
+    }
+    QV x1 = xq (iq (p1)), x2 = xq (iq (p2)), x3 = xq (iq (p3)), x4 = xq (iq (p4));
+    QV nx = cross (x2 - x1, x3 - x1);
+    if (len (nx) < (Q) 1e-9) return;
+    QV nq = unit (nx);
+    Plane3<T> pl (it<T> (p1), it<T> (p2), it<T> (p3));
+    Plane3<T> px = pl * M;
+    std::string in = fmt ({(double) p1.x, (double) p1.y, (double) p1.z, (double) p2.x, (double) p2.y, (double) p2.z, (double) p3.x, (double) p3.y, (double) p3.z});
+    for (int i = 0; i < 4; ++i) for (int j = 0; j < 4; ++j) in += fmt ({(double) M[i][j]});
+    Q scale = 1 + maxabs (x1) + maxabs (x2) + maxabs (x3) + maxabs (x4);
+    Q normM = 0;
+    for (int i = 0; i < 4; ++i) for (int j = 0; j < 4; ++j) normM += (Q) M[i][j] * (Q) M[i][j];
+    // conditioning: the images of the code's three points span a triangle of area |N'|/2; the normal's error is (error of the images)/(its height)
+    QV i0 = xq (P0), i1 = xq (P1), i2 = xq (P2);
+    QV Nc = cross (i1 - i0, i2 - i0);
+    Q  ext = 1 + maxabs (i0) + maxabs (i1) + maxabs (i2) + len (i1 - i0) + len (i2 - i0);
+    Q  cond = 1 + ext * (len (i1 - i0) + len (i2 - i0)) / (len (Nc) * minw);
+    ++counts[std::string ("proj_cases:") + tname<T> ()];
+    check<T> ("Plane3.mulM44", "projective-unit-normal", qabs (len (toQ (px.normal)) - 1), 1, 4, in);
+    Q dn = len (toQ (px.normal) - nq), dp = len (toQ (px.normal) + nq);
+    check<T> ("Plane3.mulM44", "projective-normal", dn < dp ? dn : dp, cond, 32, in);
+    for (QV xi : {x1, x2, x3, x4})
+        check<T> ("Plane3.mulM44", "projective-contains-images", qabs (dot (toQ (px.normal), xi) - (Q) px.distance), scale * cond, 32, in);
+    // sides
+    long side = idot (nI, isub (q, p1));
+    if (side != 0 && !tie)
+    {
+        QV xqv = xq (iq (q));
+        Q  got = dot (toQ (px.normal), xqv) - (Q) px.distance;
+        Q  sdq = dot (n, iq (q)) - dpl;
+        Q  hgt = qabs (dot (nq, xqv - x1));          // exact distance of the image from the exact image plane
+        if (hgt > 64 * (Q) std::numeric_limits<T>::epsilon () * scale * cond)
+        {
+            ++evals;
+            Q pred = (Q) det * sdq * ((Q) wI (q) / 16) * (w0 * w1 * w2);
+            if ((got > 0) != (pred > 0)) flag ("Plane3.mulM44", "projective-sides", tname<T> (), "side of the image differs from sign(det4 * side * w(q) * W) (theorem Plane3_mulM44_projective)", in + fv (it<T> (q)));
+        }
     }
 }
 
@@ -494,6 +710,8 @@ template <class T> static void runAll (long n)
         runLines<T> (far);
         runPlanes<T> (far);
         runPlaneXform<T> ();
+        runPlaneXformProj<T> ();
+        runGuards<T> ();
         runSpheres<T> (far);
         runTriangles<T> (far);
         runVecAlgo<Vec2<T>, 2> ("VecAlgo2");
